@@ -227,9 +227,16 @@ def dispatch_groups(scope, is_subject, resolve: "Resolver | None" = None) -> dic
             try:
                 v = resolve(node, fn)
             except KeyError:
-                return []
+                v = None
             if isinstance(v, dict):
                 return [k for k in v if isinstance(k, str)]
+        # `self.X[...]` where some method of the scope assigns `self.X = {"k": …}` (a table of bound handlers built in
+        # __init__): the keys of that literal
+        if isinstance(node, ast.Attribute) and isinstance(node.value, ast.Name) and node.value.id == "self":
+            for a in ast.walk(scope):
+                if isinstance(a, ast.Assign) and isinstance(a.value, ast.Dict) and any(
+                        isinstance(t, ast.Attribute) and isinstance(t.value, ast.Name) and t.value.id == "self" and t.attr == node.attr for t in a.targets):
+                    return [k.value for k in a.value.keys if isinstance(k, ast.Constant) and isinstance(k.value, str)]
         return []
 
     fns = functions(scope) or [scope]
